@@ -1,5 +1,7 @@
 """Single source for MANIFEST.json (tools/mkmanifest.py)."""
 ENGINES = [
+    {"name": "envdev+bfs-protocol", "path": "vf/props/c10.py", "serves_properties": ["C10"],
+     "kind_free_text": "real McuBoot stack over fakes at the pyserial / libusbsio boundary backed by a reference bootloader model; BFS over operation histories; single-fault enumeration over every position of the device->host stream; virtual clock"},
     {"name": "procsched+crashpoints", "path": "vf/engine/procsched.py", "serves_properties": ["C18"],
      "kind_free_text": "FS/lock seams installed in forked children, write-history logger, crash-state materialiser, controlled scheduler over real OS processes with preemption-bounded stateless exploration"},
     {"name": "histories-fresh-interpreter", "path": "vf/props/c17.py", "serves_properties": ["C17"],
@@ -9,9 +11,15 @@ ENGINES = [
     {"name": "sweep", "path": "vf/props/c20.py", "serves_properties": ["C20"],
      "kind_free_text": "exhaustive loops over small string/integer domains executed on the real helpers, own recogniser as oracle"},
 ]
-FIX_COMMITS = ["e173e89", "69c9427", "3f819f3", "2ac9b91", "83ab516", "2982182", "b4341d3", "f68c828", "1e56e39", "8e8a574", "2622fd6", "9334850", "fd62f71"]
+FIX_COMMITS = ["e173e89", "69c9427", "3f819f3", "2ac9b91", "83ab516", "2982182", "b4341d3", "f68c828", "1e56e39", "8e8a574", "2622fd6", "9334850", "fd62f71", "1ea4c23", "c7c34d4", "dd26e59"]
 NOT_APPLICABLE = {}
 CHECKS = {
+    "C10": {
+        "engine": "envdev+bfs-protocol", "level": "model_checking", "design_ref": "DESIGN.md §11",
+        "technique": "explicit-state BFS over McuBoot operation sequences against a reference device model, plus exhaustive single-fault injection at every byte/report of the device-to-host stream, all executed on the real protocol stack under a virtual clock",
+        "text": "Real McuBoot over the real UART and USB interface/device classes talks to a reference bootloader through fakes of pyserial.Serial / libusbsio HID_DEVICE. Fault-free: all operation sequences to depth 2 (quick) / 3 (thorough) per device configuration must have exactly the device effects, results and status the protocol defines, with no protocol violation seen by the device's own deframer. Faults: for every listed operation and every byte offset (serial) / report (HID) of the device-to-host stream, every fault kind is injected once; the call must terminate within the virtual-time horizon and never claim success with a result or device effect different from the fault-free run.",
+        "note": "Trusted: vf/ref/mboot_dev.py as protocol definition. SDP/SDPS, buspal/usbsio/CAN/SDIO device classes, lengths > 8 KiB and double faults (thorough subset only) are outside; HID payload corruption is undetectable by construction and not injected.",
+    },
     "C18": {
         "engine": "procsched+crashpoints", "level": "fault_enumeration", "design_ref": "DESIGN.md §19",
         "technique": "crash-point enumeration over the recorded write history of both cache files (every generation x prefix-length class / every byte in thorough) plus stateless model checking of 2-3 real forked processes under a controlled scheduler, all interleavings with <= p preemptions",
